@@ -27,6 +27,50 @@ EXPLANATION = (
 NOT_DECIDED = "That the forward-reachability computation itself is right (a graph algorithm over data); results of failed/paused runs beyond using the same filter."
 
 
+def check_sentinel_by_identity(ctx, rule: str) -> None:
+    """Result filtering tells an ordering signal from a value by identity with the one module-level sentinel only: in
+    filter_outputs and everything it hands the sentinel to, the sentinel is used in ``is`` / ``is not`` comparisons or
+    passed on — never through type(), isinstance(), == or hashing (a value that merely resembles it — any plain
+    object() — would be dropped from the results)."""
+    db, rep = ctx.db, ctx.rep
+    fo = db.func("runners._shared.helpers.filter_outputs")
+    todo: list[tuple[FuncInfo, str]] = []
+    for c in db.calls_in(fo):
+        for cal in db.resolve_call(c, fo):
+            if cal.func is not None and cal.kind == "func":
+                for pn, a in (bind_args(c, cal.func) or {}).items():
+                    if isinstance(a, ast.Name) and a.id == "_EMIT_SENTINEL":
+                        todo.append((cal.func, pn))
+    seen = set()
+    n = 0
+    while todo:
+        f, sp = todo.pop()
+        if (f.qname, sp) in seen:
+            continue
+        seen.add((f.qname, sp))
+        n += 1
+        bad = []
+        for x in walk_local(f.node):
+            if not (isinstance(x, ast.Name) and x.id == sp and isinstance(x.ctx, ast.Load)):
+                continue
+            par = getattr(x, "_parent", None)
+            if isinstance(par, ast.Compare) and len(par.ops) == 1 and isinstance(par.ops[0], (ast.Is, ast.IsNot)):
+                continue
+            if isinstance(par, ast.Call) and x in par.args or isinstance(par, ast.keyword):
+                call_ = par if isinstance(par, ast.Call) else getattr(par, "_parent", None)
+                cals = [cal.func for cal in db.resolve_call(call_, f) if cal.func is not None and cal.kind == "func"] if isinstance(call_, ast.Call) else []
+                if cals:
+                    for g in cals:
+                        for pn, a in (bind_args(call_, g) or {}).items():
+                            if a is x:
+                                todo.append((g, pn))
+                    continue
+            bad.append(par if par is not None else x)
+        rep.add(rule, f"{f.qname}:sentinel-by-identity", not bad, f"{f.module.rel}:{bad[0].lineno if bad else f.lineno}", "the sentinel is only compared by identity (or handed on)" if not bad else f"'{src(bad[0])[:60]}' uses the sentinel other than in an identity comparison: a declared output whose value merely resembles it (a plain object() token, an equal value) is dropped from the returned values")
+    if n < 2:
+        raise AnalysisError(f"only {n} functions receiving the emit sentinel from filter_outputs found")
+
+
 def run(ctx) -> None:
     db, rep = ctx.db, ctx.rep
     rep.rule("C16.R1", "scheduling is restricted to the active set computed from the graph's current entry points", floor=6)
@@ -197,6 +241,7 @@ def run(ctx) -> None:
     rep.add("C16.R3", f"{cs.qname}", ok, cs.loc(), "selected collector iterates the requested names and drops the sentinel by identity" if ok else "the selected-outputs collector can return names outside the selection or a sentinel value")
     # sentinel passed is the module constant
     sent_ok = all(any(isinstance(a, ast.Name) and a.id == "_EMIT_SENTINEL" for a in c.args) for c in db.calls_in(fo) if call_names(db, c, fo) & {ca.name, cs.name})
+    check_sentinel_by_identity(ctx, "C16.R3")
     rep.add("C16.R3", f"{fo.qname}:sentinel", sent_ok, fo.loc(), "collectors receive the module's emit sentinel" if sent_ok else "collectors are not given the emit sentinel")
     rrs = db.func("runners._shared.validation.resolve_runtime_selected")
     ok = any(isinstance(n, ast.Assign) and isinstance(n.value, ast.ListComp) and "not in graph.outputs" in src(n.value) for n in walk_local(rrs.node)) and any(isinstance(n, ast.Raise) for n in walk_local(rrs.node))
